@@ -178,7 +178,10 @@ def lean_stage(pid: str, spec: dict, thorough: bool = False):
     with Lock():
         gen = regenerate()
         report["generated"] = gen
-        for name in spec.get("generated", []):
+        # the regenerated files this module depends on: the declared ones and whatever it imports transitively
+        needed = set(spec.get("generated", [])) | {q.stem for q in module_sources(module) if "Generated" in q.parts}
+        report["generated_needed"] = sorted(needed)
+        for name in sorted(needed):
             if gen.get(name, {}).get("error"):
                 report["broken"].append({"obligation": f"translator:{name}", "why": gen[name]["error"]})
         key = lean_tree_hash()
